@@ -19,6 +19,7 @@ import os
 import random
 import sys
 import time
+import zlib
 
 import numpy as np
 import sympy
@@ -28,7 +29,7 @@ if __name__ == "__main__":           # `python props/c15.py --history-child seed
 
 from common import Driver, Report, lean_obligations, err_class, load_findings
 import paramlib as pl
-from props.c14 import tok_pdiagram, tok_poly, NV
+from props.c14 import tok_pdiagram, tok_poly, NV, tok_layer, tok_xdiagram, bubble_model_case
 
 PROP = "C15"
 
@@ -238,6 +239,187 @@ def repeated_param_boxes(c):
     return n
 
 
+JAC_KW_EVERY = 1          # run() sets 2: the keyword stream runs on every second circuit
+
+JAC_KEYWORDS = [("default", {}), ("mixed=True", {"mixed": True}), ("mixed=False", {"mixed": False})]
+
+
+def terms_of(x):
+    return list(x.terms) if hasattr(x, "terms") else [x]
+
+
+def grad_or_refusal(f):
+    """("ok", value) | ("refusal", None) for the documented NotImplementedError | ("raises", exc)."""
+    try:
+        return "ok", f()
+    except NotImplementedError:
+        return "refusal", None
+    except Exception as exc:
+        return "raises", exc
+
+
+def eval_entries(x, mixed, size):
+    e = x.eval(mixed=mixed)
+    return [0] * size if isinstance(e, int) else pl.entries(e)
+
+
+def check_jacobian_keywords(rep, rng, syms, c, desc, amp=None, cq=None, cq_budget=0, variables=None):
+    """Circuit.jacobian with 0, exactly 1 and 2 variables under every keyword combination
+    (mixed absent / True / False): the jacobian stacks the gradients TAKEN WITH THE SAME ARGUMENTS;
+    with one variable it is that gradient, so it evaluates -- in the mode asked -- to the partial
+    derivative of the amplitudes (mixed=False; `amp` = entries of the pure evaluation) or of the
+    classical-quantum map (default, mixed=True; `cq` = entries of the CQ evaluation).
+    Cheap path: the terms are those of grad under the same keywords (printed forms equal); only when
+    they differ are both evaluated and compared as values.  Oracle path: the evaluation against the
+    derivative, for mixed=False wherever `amp` is given (pure circuits) and for `cq_budget`
+    (variable, keyword) pairs in CQ mode (a CQ evaluation of a formal sum costs 4^qubits per term)."""
+    from discopy.quantum.gates import Digits
+    import sympy as _sp
+    pure_circuit = not c.is_mixed
+    present = sorted(pl.diagram_symbols(c), key=str)
+    pool = list(variables or syms) + [_sp.Symbol("absent9", real=True)]
+    oracle_var = rng.choice(present) if present and rng.random() < 0.85 else rng.choice(pool)
+    # (the default keywords with one variable are also evaluated by the jacobian stream of check_circuit)
+    cq_kw = "mixed=True" if cq is not None else rng.choice(["default", "mixed=True"])
+    if cq_budget and rng.random() < 0.5:
+        cq_budget = 0
+    # the pure oracle on every second circuit (the others: same terms as grad under the same keywords)
+    pure_oracle = rng.random() < 0.5
+    # one-variable lists: the oracle's variable and one more of the pool (present or absent)
+    # (building a gradient costs 20-40 ms: one list per circuit, a second one on a third of them)
+    one = [oracle_var] + (rng.sample([v for v in pool if v != oracle_var], 1) if rng.random() < 0.34 else [])
+    two_kw = rng.choice(["mixed=True", "mixed=False", "mixed=False"]) if rng.random() < 0.2 else None
+    # keyword combinations with one variable: the one(s) the oracle can judge on this circuit, and
+    # one of the others (compared with grad under the same keywords)
+    if cq is None:
+        one_kws = {"mixed=False"} | ({cq_kw} if rng.random() < 0.34 else set())
+    else:
+        one_kws = {"mixed=False", cq_kw} | ({"default"} if rng.random() < 0.3 else set())
+    for kwname, kw in JAC_KEYWORDS:
+        asked_mixed = kw.get("mixed", True)
+        if not asked_mixed and not pure_circuit:
+            rep.count("jacobian_kw_skipped:pure_gradient_of_mixed_circuit")
+            continue
+        # ---- zero variables
+        for empty in ([], ()) if kwname == cq_kw else ([], ):
+            case = dict(desc, jacobian=[], keywords=kwname)
+            rep.count("jacobian_kw:0:" + kwname)
+            rep.case("jac0|%s|%s|%r" % (desc["diagram"], kwname, empty), False)
+            st, j = grad_or_refusal(lambda: c.jacobian(empty, **kw))
+            if st != "ok":
+                rep.fail("jacobian_raises:%s" % (type(j).__name__ if st == "raises" else "NotImplementedError"),
+                         case, repr(j)[:200])
+            elif grad_len(j) != 0 or (j.dom, j.cod) != (c.dom, c.cod):
+                rep.fail("jacobian_of_nothing_not_zero", case, repr(j)[:200])
+        # ---- exactly one variable
+        for var in (one if kwname in one_kws else []):
+            case = dict(desc, jacobian=[str(var)], keywords=kwname)
+            depends = var in present
+            rep.count("jacobian_kw:1:" + kwname)
+            rep.case("jac1|%s|%s|%s" % (desc["diagram"], kwname, var), depends and len(c.boxes) >= 2)
+            # will the oracle judge this (variable, keywords)?  Then the evaluation decides, and the
+            # comparison with grad under the same keywords is left to the other pairs
+            judged = depends and var == oracle_var and (
+                pure_oracle if not asked_mixed else (cq is not None and cq_budget > 0 and kwname == cq_kw))
+            sj, j = grad_or_refusal(lambda: c.jacobian([var], **kw))
+            if judged and sj == "ok":
+                sg, g = "ok", None
+            else:
+                sg, g = grad_or_refusal(lambda: c.grad(var, **kw))
+            if sg == "raises":
+                continue                        # grad's own failure: reported by the gradient checks
+            if sj != sg:
+                rep.fail("jacobian_one_variable_unlike_grad:%s" % sj, case,
+                         "grad: %s, jacobian: %s %s" % (sg, sj, repr(j)[:160]))
+                continue
+            if sj == "refusal":
+                rep.count("refusal:notimpl_two_qubit_rotation")
+                continue
+            if (j.dom, j.cod) != (c.dom, c.cod):
+                rep.fail("jacobian_one_variable_type", case, "%s -> %s" % (j.dom, j.cod))
+                continue
+            if not depends and grad_len(j) != 0:
+                rep.fail("independent_symbol_not_empty_sum:jacobian", case, repr(j)[:200])
+                continue
+            same = g is None or [repr(t) for t in terms_of(j)] == [repr(t) for t in terms_of(g)]
+            point = pl.rational_point(rng, syms)
+            if g is None:
+                pass
+            elif same:
+                rep.count("jacobian_kw_same_terms_as_grad")
+            else:
+                # not the same formal sum: it must at least be the same value, in the mode asked
+                try:
+                    size = len(amp if not asked_mixed and amp is not None else cq or amp or [])
+                    a, b = eval_entries(j, asked_mixed, size), eval_entries(g, asked_mixed, size)
+                    compare(rep, "jacobian_one_variable_not_the_gradient:" + kwname, case, a, b, point)
+                except Exception as exc:
+                    rep.fail("jacobian_one_variable_not_the_gradient:%s:%s" % (kwname, type(exc).__name__),
+                             case, repr(exc)[:200])
+            # oracle: the evaluation in the mode asked is the derivative of the evaluation
+            if not judged:
+                if depends and var == oracle_var:
+                    rep.count("jacobian_kw_oracle_skipped:" + ("cq_cost" if asked_mixed else "every_second"))
+                continue
+            if not asked_mixed:
+                ref = amp
+                if ref is None:
+                    try:
+                        ref = pl.entries(c.eval(mixed=False))
+                    except Exception as exc:
+                        rep.fail("eval_raises:" + type(exc).__name__, case, repr(exc)[:200])
+                        continue
+            else:
+                ref = cq
+                cq_budget -= 1
+            try:
+                got = eval_entries(j, asked_mixed, len(ref))
+            except Exception as exc:
+                rep.fail("jacobian_eval_raises:" + type(exc).__name__, case, repr(exc)[:200])
+                continue
+            sig = "jacobian_one_variable_wrong:" + kwname
+            if asked_mixed:
+                sp, sm = scalar_kinds(c, var)
+                if sp:
+                    sig = "mixed_grad_wrong:pure_scalar"                                   # F9
+                elif sm:
+                    sig = "mixed_grad_wrong:mixed_scalar"                                  # F9
+            if compare(rep, sig, case, got, diff_entries(ref, var), point):
+                rep.count("jacobian_kw_oracle_ok:1:" + kwname)
+        # ---- two variables: the stack of the gradients taken with the same keywords
+        if len(pool) >= 2 and kwname == two_kw:
+            vs = rng.sample(pool, 2)
+            case = dict(desc, jacobian=[str(v) for v in vs], keywords=kwname)
+            rep.count("jacobian_kw:2:" + kwname)
+            rep.case("jac2|%s|%s|%s" % (desc["diagram"], kwname, vs), True)
+            sj, j = grad_or_refusal(lambda: c.jacobian(vs, **kw))
+            gs = [grad_or_refusal(lambda v=v: c.grad(v, **kw)) for v in vs]
+            if any(st == "raises" for st, _ in gs):
+                continue
+            want_status = "refusal" if any(st == "refusal" for st, _ in gs) else "ok"
+            if sj != want_status:
+                rep.fail("jacobian_stack_unlike_grads:%s" % sj, case, "grads: %s, jacobian: %s %s" % (
+                    [st for st, _ in gs], sj, repr(j)[:160]))
+                continue
+            if sj != "ok":
+                continue
+            if (j.dom, j.cod) != (c.dom, Digits(0, dim=2).cod @ c.cod):
+                rep.fail("jacobian_stack_type", case, "%s -> %s" % (j.dom, j.cod))
+                continue
+            stack = [Digits(i, dim=2) @ t for i, (_, g) in enumerate(gs) for t in terms_of(g)]
+            if [repr(t) for t in terms_of(j)] == [repr(t) for t in stack]:
+                rep.count("jacobian_kw_same_terms_as_stack")
+            else:
+                try:
+                    a = eval_entries(j, True, 0)
+                    b = eval_entries(sum(stack[1:], stack[0]) if stack else j, True, 0)
+                    compare(rep, "jacobian_stack_not_the_gradients:" + kwname, case, a, b,
+                            pl.rational_point(rng, syms))
+                except Exception as exc:
+                    rep.fail("jacobian_stack_not_the_gradients:%s:%s" % (kwname, type(exc).__name__),
+                             case, repr(exc)[:200])
+
+
 def check_circuit(rep, rng, syms, c, mode, jacobian=True, extra=None, collect=None, variables=None):
     """mode 'pure': grad(mixed=False) on a pure circuit, amplitudes; 'default': grad(x), CQ maps."""
     desc = dict(family=mode, diagram=repr(c)[:500])
@@ -293,6 +475,20 @@ def check_circuit(rep, rng, syms, c, mode, jacobian=True, extra=None, collect=No
         if compare(rep, sig, case, got, diff_entries(es, var), pl.rational_point(rng, syms)):
             rep.count("%s_grad_ok" % mode)
             rep.count("terms:%s" % min(grad_len(g) or 0, 8))
+    # jacobians of zero and of exactly one variable (no Digits: the jacobian IS the gradient), and
+    # stacks of several, under every keyword combination
+    # (own generator, derived from the circuit: the cases of the streams below stay those of earlier runs)
+    width = max([len(c.dom)] + [len(left) + max(len(box.dom), len(box.cod)) + len(right)
+                                for left, box, right in c.layers])
+    if collect is None and zlib.crc32(repr(c).encode()) % JAC_KW_EVERY == 0:
+        # (not inside the histories: those are about values kept between calls; on every second
+        # circuit -- building a gradient costs 20-40 ms)
+        t_kw = time.process_time()
+        check_jacobian_keywords(rep, random.Random(zlib.crc32(repr(c).encode())), syms, c, desc,
+                                amp=None if mixed else es, cq=es if mixed else None,
+                                cq_budget=1 if (mixed and jacobian and width <= 1) else 0, variables=variables)
+        rep.extra["jacobian_keywords_cpu_s"] = round(
+            rep.extra.get("jacobian_keywords_cpu_s", 0) + time.process_time() - t_kw, 2)
     # jacobian: only for default gradients.  Circuit.jacobian stacks with classical Digits, so the
     # sum always has bit and qubit wires and is evaluated as a CQ map; with mixed=False the terms
     # are amplitude gradients, whose CQ evaluation is not a derivative of anything (not claimed).
@@ -1059,68 +1255,6 @@ def sum_model_stream(rep, drv, rng, n_cases, flag):
             rep.disagree(stream, case, real[:400], model[:400])
 
 
-def tok_layer(l, syms):
-    def dims(x):
-        return " ".join([str(len(x))] + [str(k) for k in x])
-    return " ".join([dims(l.get("left", [])), dims(l.get("right", [])), dims(l["dom"]), dims(l["cod"]),
-                     "1" if l["dagger"] else "0", str(len(l["data"]))] + [tok_poly(e, syms) for e in l["data"]])
-
-
-def tok_xdiagram(dom, xlayers, syms):
-    """`<dom> <nlayers> xlayer*` (Driver/ParamCmd.lean): plain boxes and single-wire bubbles."""
-    def dims(x):
-        return " ".join([str(len(x))] + [str(k) for k in x])
-    out = [dims(dom), str(len(xlayers))]
-    for l in xlayers:
-        if l["kind"] == "bubble":
-            out += [dims([]), dims([]), "1", dims(l["dom"]), dims(l["cod"]),
-                    " ".join([str(len(l["func"]))] + [str(c) for c in l["func"]]),
-                    str(len(l["inside"]))] + [tok_layer(x, syms) for x in l["inside"]]
-        else:
-            out += [dims([]), dims([]), "0", dims(l["dom"]), dims(l["cod"]),
-                    "1" if l["dagger"] else "0", str(len(l["data"]))] + [tok_poly(e, syms) for e in l["data"]]
-    return " ".join(out)
-
-
-def bubble_model_case(rng, syms, func_rng=None):
-    """pre? >> inside.bubble(func) >> post?  with integer-polynomial boxes, `func` a polynomial with
-    integer coefficients given to both sides as its coefficient list.  func_rng (default: rng):
-    source of the coefficients -- equal `rng` seeds with different `func_rng` give diagrams that
-    differ in the bubble's function only (equal repr, name, boxes)."""
-    g = pl.TensorGen(rng, syms, polyonly=True, maxdim=6)
-    a, b = rng.choice([1, 2, 2, 3]), rng.choice([1, 2, 2])
-    composite = rng.random() < 0.3
-    g.maxdeg = 1 if composite else 2
-    fr = func_rng or rng
-    deg = fr.randint(1, 2 if composite else 3)
-    cs = [fr.choice([-2, -1, 0, 1, 1, 2]) for _ in range(deg)] + [fr.choice([-1, 1, 2])]
-
-    def func(v, cs=tuple(cs)):
-        return sum(c * v ** k for k, c in enumerate(cs))
-    da, db = ([a] if a > 1 else []), ([b] if b > 1 else [])
-    if composite:
-        m = 2
-        b1, s1 = g.box(da, [m])
-        b2, s2 = g.box([m], db, symbolic=rng.random() < 0.7)
-        inside, ispec = b1 >> b2, [s1, s2]
-    else:
-        inside, ispec = g.box(da, db)
-        ispec = [ispec]
-    d = inside.bubble(func=func, drawing_name="p")
-    xl = [dict(kind="bubble", dom=da, cod=db, func=cs, inside=ispec)]
-    dom = list(da)
-    shape = rng.choice(["alone", "before", "after", "both"])
-    if shape in ("before", "both"):
-        n = rng.choice([1, 2, 3])
-        pre, sp = g.box([n] if n > 1 else [], da, symbolic=rng.random() < 0.7)
-        d, xl, dom = pre >> d, [dict(sp, kind="box")] + xl, ([n] if n > 1 else [])
-    if shape in ("after", "both"):
-        n = rng.choice([1, 2])
-        post, sp = g.box(db, [n] if n > 1 else [], symbolic=rng.random() < 0.7)
-        d, xl = d >> post, xl + [dict(sp, kind="box")]
-    return d, dom, xl, "%s:%s:deg%d" % (shape, "composite" if composite else "box", len(cs) - 1)
-
-
 def bubble_stream(rep, drv, rng, n_cases, flag, alike_groups=0):
     """Evaluation and gradient (number of terms, evaluation of the sum) of diagrams with a
     polynomial bubble: tensor.Bubble.grad (chain rule through two spiders) on discopy against the
@@ -1180,6 +1314,8 @@ def bubble_stream(rep, drv, rng, n_cases, flag, alike_groups=0):
 def run(tier, seed, replay=None):
     rep = Report(PROP, tier, seed)
     quick = tier == "quick"
+    global JAC_KW_EVERY
+    JAC_KW_EVERY = 2          # (thorough has 5-8 times as many circuits: every second one there too)
     rep.rule = ("tensor diagrams (1-4 layers, symbolic / daggered boxes, swaps, spiders, single-wire "
                 "polynomial bubbles alone and inside diagrams), pure circuits (grad(mixed=False), "
                 "amplitudes) and pure+mixed circuits (default parameter-shift grad, CQ maps) over "
